@@ -305,6 +305,19 @@ def special_cases(rng):
                "payload": ["gather", ["files", ["t.go", "Name", "Size"], ["alt.go", "Other"]]]})
     sp.append({"kind": "gather", "files": {"t.go": rq, "alt.go": "//go:build ignore\n\npackage rc\n\ntype Other struct {\n\tX string\n}\n"},
                "args": ["rest", "-type=ClientA"], "nexec": 8, "payload": ["gather", ["files", ["t.go", "Name", "Size"], ["alt.go"]]]})
+    # rest, struct parameter from ANOTHER package of the module; a second module (a nested directory with its own go.mod and the same
+    # module path) provides the same import path with a different struct.  The command is started with the package directory as an
+    # absolute [dir]: from the module root (same module context: well-formed twin) and from the other module (finding F_pkgDirCwd:
+    # getPkgDir resolves the path from the working directory)
+    rc = ("package rc\n\nimport (\n\t\"context\"\n\t\"net/http\"\n\n\t\"github.com/lopolopen/shoot\"\n\t\"@MOD@/c/dest\"\n)\n\n"
+          "type ClientA interface {\n\tshoot.RestClient[ClientA]\n\n\t//shoot: Get(\"/orders\")\n\tM0(ctx context.Context, q dest.Query) (*http.Response, error)\n}\n")
+    pfiles = {"t.go": rc, "dest/d.go": "package dest\n\ntype Query struct {\n\tFrom string\n\tPage int\n}\n",
+              "zz_other/go.mod": "module @MOD@\n\ngo 1.24.0\n\ntoolchain go1.24.6\n",
+              "zz_other/c/dest/d.go": "package dest\n\ntype Query struct {\n\tIntruder string\n}\n"}
+    imp = pkgrun.MOD + "/c/dest"
+    for wd, ctxdir in ((None, "pkg"), ("zz_other", "other")):
+        sp.append({"kind": "pkgdir", "files": pfiles, "args": ["rest", "-type=ClientA"], "wd": wd, "nexec": 1,
+                   "payload": ["pkgdir", ["import", Q(imp)], ["pkgctx", [Q(imp), "pkg"]], ["cwdctx", [Q(imp), ctxdir]]]})
     return sp
 
 
@@ -543,7 +556,14 @@ def history(ctx, roots, job):
             os.makedirs(sib, exist_ok=True)
             with open(os.path.join(sib, "zz.go"), "w") as f:
                 f.write("package zzsibling\n")
-            away = ctx.sub("away-from-any-module")
+            # a directory of ANOTHER module (its own go.mod: a directory without one would belong to whatever module an ancestor
+            # directory happens to declare - and tools that scan "the module of the working directory" would scan that)
+            away = ctx.sub("away-other-module")
+            if not os.path.exists(os.path.join(away, "go.mod")):
+                with open(os.path.join(away, "go.mod"), "w") as f:
+                    f.write("module awaymod\n\ngo 1.24.0\n\ntoolchain go1.24.6\n")
+                with open(os.path.join(away, "a.go"), "w") as f:
+                    f.write("package awaymod\n")
             places = [("pkgdir", pkgdir), ("modroot", modroot)] + ([("sibling", sib), ("away", away)] if full else [])
             ref, bad = None, []
             for kind, wd in places:
@@ -676,8 +696,15 @@ def run_special(ctx, root, sp, idx, nexec):
 
     def one(i):
         d = Dir(ctx, root, "s%d_%d" % (idx, i), {"files": sp["files"], "cwd": ".", "cmd": sp["args"][0]})
+        if sp["kind"] == "pkgdir":
+            # the package directory as an absolute [dir]; started from the module root or from the directory named by `wd`
+            pkgdir = os.path.normpath(d.cwd)
+            p = d.shoot(sp["args"] + [pkgdir], cwd=os.path.join(pkgdir, sp["wd"]) if sp["wd"] else os.path.dirname(d.path))
+            return (p.returncode, d.outputs())
         p = d.shoot(sp["args"])
         return (p.returncode, d.outputs())
+    if sp["kind"] == "pkgdir":
+        return [one(0)]
     with ThreadPoolExecutor(max_workers=INNER) as ex:
         return list(ex.map(one, range(nexec)))
 
@@ -858,6 +885,10 @@ def run(ctx, obl):
         elif sp["kind"] == "getgofile":
             seen = sorted(set(fn.split(".shoot")[0] + ".go" for _, o in outs for fn in o))
             im = {"gofile": ",".join(seen)}
+        elif sp["kind"] == "pkgdir":
+            rc_, o = outs[0]
+            txt = b"".join(o.values())
+            im = {"struct-from": "fail" if rc_ != 0 or not o else "other" if b"q.Intruder" in txt else "pkg" if b"q.From" in txt else "neither"}
         else:
             # which parameter fills the placeholder is visible in the generated text; count the distinct outputs
             im = {"variants": str(len(set((rc != 0, tuple(sorted(o.items()))) for rc, o in outs))),
